@@ -422,7 +422,7 @@ def dig_4connectivity(
         if mask is not None and not mask[idx0]:
             continue
         idx_ds = idxs_ds[idx0]
-        dd = abs(int(idx0) - int(idx_ds))
+        dd = abs(np.int64(idx0) - np.int64(idx_ds))
         if dd > 1 and dd != ncol:  # diagonal
             idxs_d4 = _local_d4(idx0, idx_ds, ncol)  # indices of adjacent d4 cells
             z0 = elv_out[idx0]  # elevtn of current cell
